@@ -296,6 +296,45 @@ func §E() {
 	tr.V(11, ok)
 }
 `, "iter-of-iter", "type-switch"),
+		mk("cons-body-partially-redeclares-loop-variable", `
+for v := range OVER<<§src(3, 1)>>OVER {
+	p := &v
+	get := func() int { return v }
+	half, v := v/2, v*10
+	tr.V(1, half+v)
+	tr.V(2, *p)
+	tr.V(3, get())
+}
+aliases := map[int]int{1: 100, 3: 300}
+for v := range OVER<<§src(3, 1)>>OVER {
+	get := func() int { return v }
+	v, ok := aliases[v]
+	tr.V(4, v)
+	tr.V(5, ok)
+	tr.V(6, get())
+}
+for v := range OVER<<§src(2, 5)>>OVER {
+	get := func() int { return v }
+	const v = 9
+	tr.V(7, v+get())
+}`, "body-declares", "body-redeclares-loop-var-partially"),
+		Raw("cons-body-partially-redeclares-loop-variable-in-generator", consumerSrc+`
+func §gen() ITER[int] GEN[int]{
+	for v := range OVER<<§src(3, 1)>>OVER {
+		get := func() int { return v }
+		w, v := v+1, v*100
+		YIELD(w + v)
+		YIELD(get())
+	}
+	for v := range OVER<<§src(2, 7)>>OVER {
+		p := &v
+		YIELD(v)
+		q, v := v-1, 0
+		YIELD(q + v + *p)
+	}
+	RETNIL
+}GEN
+`+StdEntry, "body-declares", "body-redeclares-loop-var-partially"),
 		mk("cons-two-iterators-alternating", `
 a, b := §src(3, 10), §src(3, 20)
 for a.MoveNext() && b.MoveNext() {
